@@ -135,6 +135,12 @@ impl FromRequest for PathBufWrap {
     }
 }
 
+#[cfg(kani)]
+mod __verif {
+    use super::*;
+    include!(concat!(env!("ACTIX_VERIF_DIR"), "/hooks/actix_files__path_buf.rs"));
+}
+
 #[cfg(test)]
 mod tests {
     use super::*;
